@@ -41,6 +41,7 @@ struct Img {
 
 fn crash_profile() -> Profile {
     let mut p = Profile::general();
+    p.grow_shrink_pct = 8;
     p.w_reads = 0;
     p.w_tx = 6;
     p.w_insert_index = 3;
